@@ -570,6 +570,12 @@ fn main() {
     let mut out = String::new();
     out.push_str("domain dispatch\n");
     let spin: u64 = std::env::var("H_DISPATCH_SPIN").ok().and_then(|s| s.parse().ok()).unwrap_or(60);
+    // The process-wide rayon pool (what `rayon::current_num_threads()` answers outside any pool, e.g. while a `World` is
+    // built) is independent of the pools the dispatchers run on; H_GLOBAL_POOL=<n> makes it smaller than those.
+    if let Some(n) = std::env::var("H_GLOBAL_POOL").ok().and_then(|s| s.parse::<usize>().ok()) {
+        rayon::ThreadPoolBuilder::new().num_threads(n.max(1)).build_global().expect("global pool");
+        out.push_str(&format!("# env H_GLOBAL_POOL={}\n", n.max(1)));
+    }
     match args.get(1).map(|s| s.as_str()) {
         Some("gen") => {
             let seed: u64 = args[2].parse().unwrap();
